@@ -252,17 +252,11 @@ func (r *replicator) processHash(ctx context.Context, item processItem) ([]cid.C
 	cprogress := make(chan iface.IPFSLogEntry)
 	defer close(cprogress)
 	go func() {
-		var entry iface.IPFSLogEntry
-		for {
-
-			select {
-			case <-ctx.Done():
-				return
-			case entry = <-cprogress:
-			}
-
+		// the fetcher sends on this channel unconditionally: keep receiving until the
+		// channel is closed, even when the context is done, or the fetch never returns
+		for entry := range cprogress {
 			if entry == nil {
-				return
+				continue
 			}
 
 			if err := r.emitters.evtLoadProgress.Emit(NewEventLoadProgress(entry)); err != nil {
